@@ -22,15 +22,19 @@ State after the repairs of this round (see `known_findings.json`):
   anchor of an enclosing wrapper (`dangling_weak_reads_back`, `unanchored_weak_is_dangling_or_error`);
 * repaired — `ArcRecursive` locks its cell only while it writes the definition: the serializer never
   locks a mutex it holds (`ser_never_deadlocks`);
-* still there — the block-scalar path of `serialize_str` ignores the pending anchor
-  (`ser_defines_once_counterexample`, `anchor_lost_on_block_scalar`; the repair is blocked by a baseline
-  test that pins the anchor-less text);
+* repaired (63913c0) — a block scalar cannot carry an anchor: the block-scalar path of `serialize_str`
+  drops the pending anchor and forgets the pointer, so a block-scalar payload is written in full at every
+  occurrence and no later node ever receives a foreign anchor (`no_anchor_left_pending`,
+  `block_scalar_payload_written_in_full`);
+* repaired (afd0262) — every wrapper, strong or weak, gets an anchor context of its own: a wrapper whose
+  node has no anchor builds a fresh, unshared pointer and never takes the id of an enclosing wrapper
+  (`unanchored_strong_is_fresh`, `nested_unanchored_wrappers_are_independent`,
+  `block_payload_inside_anchored_wrapper`);
+* still known — the sharing of a block-scalar payload is lost on the round trip (values are right):
+  `block_scalar_roundtrip_loses_sharing`, `ser_defines_once_counterexample`;
 * limitations (errors, never wrong sharing): a weak edge met before its strong owner
   (`weak_before_strong_fails`), an inner wrapper that is already anchored when its outer wrapper is first
-  written (`nested_wrapper_alias_is_refused`);
-* outside the round trip: an unanchored *strong* wrapper nested in an anchored one takes the enclosing /
-  sibling pointer (`nested_unanchored_wrapper_takes_sibling`; hand-written documents only — the
-  serializer anchors every wrapper, `ser_defines_once`).
+  written (`nested_wrapper_alias_is_refused`), same-kind wrappers directly inside each other.
 -/
 namespace SaphyrVerif.Props.C14
 open SaphyrVerif SaphyrVerif.Anchors SaphyrVerif.Spec.Anchors SaphyrVerif.Lemmas.C14
@@ -50,7 +54,7 @@ theorem ser_ids_in_range (fuel : Nat) (H : Heap) (v : Val) (o : Out) (s' : SerSt
     (h : serialize fuel H v = .ok (o, s')) :
     idsBelow s'.next o = true ∧ TableOK s' := by
   have := ser_range H fuel {} v o s' h
-    (by intro p id hp; simp [List.lookup] at hp) (by intro id hid; simp at hid) (Nat.le_refl 1)
+    (by intro p id hp; simp at hp) (by intro id hid; simp at hid) (Nat.le_refl 1)
   exact ⟨this.ids, this.tab⟩
 
 /-- (T, C01 panic-site obligation) `write_anchor_name`'s `id as usize - 1` never underflows for an id
@@ -67,11 +71,21 @@ theorem anchor_name_index_in_range (s : SerSt) (id : Nat) (h1 : 1 ≤ id) (h2 : 
 only while its definition is written, and a cell being defined is already in the pointer table, so every
 further occurrence is an alias. (Before the repair the graph `dlH`/`dlV` below never returned.) -/
 theorem ser_never_deadlocks (fuel : Nat) (H : Heap) (v : Val) : serialize fuel H v ≠ .error .deadlock :=
-  (ser_nodl H fuel {} v (by intro q hq; cases hq)).1
+  (ser_nodl H fuel {} v (by intro q hq; cases hq) (by intro p id hp; simp at hp)
+    (by intro id hid; simp at hid) (Nat.le_refl 1)).1
 
-/-- (T) **ser_defines_once**: when no payload of a shared allocation is a block scalar (the one path
-that still ignores the pending anchor) or another wrapper (which shares node and id with its outer
-wrapper), the document is well scoped: the anchor marks are `&1, &2, … &n` in order of appearance — each
+/-- (T, all graphs, all states, no hypothesis) **no_anchor_left_pending**: whenever a value has been
+written, `pending_anchor_id` is empty — scalars, `null`, sequences, maps and variants take it, a block
+scalar drops it (and forgets the pointer), an alias is only written when nothing is pending.  So no
+anchor can ever land on a later, unrelated node: the invariant all the repairs of this property
+establish. -/
+theorem no_anchor_left_pending (fuel : Nat) (H : Heap) (s : SerSt) (v : Val) (o : Out) (s' : SerSt)
+    (h : serVal fuel H s v = .ok (o, s')) : s'.pending = none :=
+  ser_clear H fuel s v o s' h
+
+/-- (T) **ser_defines_once**: when no payload of a shared allocation is a block scalar (which cannot
+carry an anchor: its pointer is forgotten and its id never written, so the ids are not dense) or another
+wrapper (which shares node and id with its outer wrapper), the document is well scoped: the anchor marks are `&1, &2, … &n` in order of appearance — each
 id defined exactly once, ids dense from 1 — every alias `*i` appears after `&i`, nothing is left in
 `pending_anchor_id`, and distinct pointers got distinct ids (so: one definition per shared node, an
 alias at every other occurrence). -/
@@ -79,7 +93,7 @@ theorem ser_defines_once (fuel : Nat) (H : Heap) (hH : AnchorTaking H) (v : Val)
     (h : serialize fuel H v = .ok (o, s')) :
     wellScoped o 0 = some (s'.next - 1) ∧ s'.pending = none ∧ TableInj s' := by
   have p := ser_scoped H hH fuel {} v o s' h (Or.inl rfl)
-    (by intro p id hp; simp [List.lookup] at hp) (by intro p q id hp; simp [List.lookup] at hp)
+    (by intro p id hp; simp at hp) (by intro p q id hp; simp [List.lookup] at hp)
     (Nat.le_refl 1)
   have e : emitted ({} : SerSt) = 0 := by simp [emitted]
   have q := p.wsc
@@ -100,18 +114,19 @@ def outToks (r : Except SerErr (Out × SerSt)) : Option (List Tok) :=
 def lostH : Heap := [(1, .leaf .block)]
 def lostV : Val := .node true [.strong .rc 3 1, .leaf (.int 7), .strong .rc 3 1]
 
-/-- (F, still in the code) the serializer writes `x: |…`, `z: &a1 7`, `w: *a1`: the anchor of the shared
-string sits on the unrelated plain field `z`. -/
-theorem anchor_lost_on_block_scalar :
+/-- (T, behaviour after 63913c0) the block-scalar payload is written in full at both occurrences,
+without anchor or alias, and the plain field `z` carries no anchor: `x: |…`, `z: 7`, `w: |…`. -/
+theorem block_scalar_payload_written_in_full :
     outToks (serialize 5 lostH lostV) =
-      some [.key, .block, .key, .anchor 1, .int 7, .key, .alias 1] := by decide +kernel
+      some [.key, .block, .key, .int 7, .key, .block] := by decide +kernel
 
 def scopedOk (r : Except SerErr (Out × SerSt)) : Bool :=
   match r with
   | .ok (o, s') => wellScoped o 0 == some (s'.next - 1)
   | .error _ => true
 
-/-- (F) counterexample to `ser_defines_once_Full` -/
+/-- (F) counterexample to `ser_defines_once_Full`: the id allocated for a block-scalar payload is never
+written, so the anchors of the document are not `&1 … &n` -/
 theorem ser_defines_once_counterexample : ¬ ser_defines_once_Full := by
   intro h
   -- a single shared block scalar: its id is allocated and never written
@@ -253,11 +268,29 @@ def rtVal (r : RtRes) : Option (List Nat × List (Ptr × Option (List Nat))) :=
   | .ok v s => some (v.code, s.heap.map fun (q, c) => (q, c.map RVal.code))
   | _ => none
 
-/-- (F, still in the code) reading the document of `anchor_lost_on_block_scalar` back: `w` is a new
-allocation holding `7`, not the string, and `x` and `w` are no longer one allocation -/
-theorem block_scalar_anchor_corrupts_roundtrip :
+/-- (F, the remaining known finding `C14-anchor-not-on-block-scalar`) reading the document of
+`block_scalar_payload_written_in_full` back: both fields hold the block scalar (values right, `z` is 7),
+but `x` and `w` are two allocations — the sharing of a block-scalar payload is lost. -/
+theorem block_scalar_roundtrip_loses_sharing :
     rtVal (roundtrip 5 lostH lostV) =
-      some ([3, 3, 4, 0, 1, 0, 7, 4, 0, 2], [(2, some [0, 7]), (1, some [2])]) := by decide +kernel
+      some ([3, 3, 4, 0, 1, 0, 7, 4, 0, 2], [(2, some [2]), (1, some [2])]) := by decide +kernel
+
+/-- witness: an anchored wrapper whose payload holds two *different* pointers to block scalars:
+`o: &a1 {a: |…, b: |…, n: 1}` -/
+def blkInH : Heap :=
+  [(1, .node true [.strong .rc 3 2, .strong .rc 3 3, .leaf (.int 1)]), (2, .leaf .block), (3, .leaf .block)]
+
+/-- (T, regression of the defect repaired by afd0262; before it `b` read back as the allocation and the
+text of `a`, and the aliased case failed with "anchor id 1 reused with incompatible Rc type") the two
+unanchored inner wrappers are two fresh allocations (1 and 2) inside the outer one (3); with the outer
+wrapper referenced twice (`p: *a1`) both fields are allocation 3. -/
+theorem block_payload_inside_anchored_wrapper :
+    rtVal (roundtrip 6 blkInH (.node true [.strong .rc 1 1])) =
+      some ([3, 1, 4, 0, 3], [(3, some [3, 3, 4, 0, 1, 4, 0, 2, 0, 1]), (2, some [2]), (1, some [2])]) ∧
+    rtVal (roundtrip 6 blkInH (.node true [.strong .rc 1 1, .strong .rc 1 1])) =
+      some ([3, 2, 4, 0, 3, 4, 0, 3],
+        [(5, some [2]), (4, some [2]), (3, some [3, 3, 4, 0, 1, 4, 0, 2, 0, 1]), (2, some [2]), (1, some [2])]) := by
+  decide +kernel
 
 /-- (T, regression) round trip of `[strong p, dangling weak]`: the weak comes back dangling -/
 theorem dangling_weak_roundtrip :
@@ -307,14 +340,31 @@ def nestedTy : Ty :=
 def nestedDoc : Out :=
   .node 0 true [.node 1 true [.node 0 true [.leaf 0 (.int 1)], .node 0 true [.leaf 0 (.int 2)]]]
 
-/-- (F, outside the round trip) **nested_unanchored_wrapper_takes_sibling**: the unanchored inner strong
-wrappers find the id of the enclosing anchored wrapper on the context stack; `a` stores its pointer
-under that id and `b` gets it back: `b` is the same allocation as `a` (value 1), the value 2 is dropped.
-Only hand-written documents have this shape: the serializer anchors every wrapper (`ser_defines_once`). -/
-theorem nested_unanchored_wrapper_takes_sibling :
+/-- (T, all types, nodes and states) **unanchored_strong_is_fresh**: a strong wrapper on a node without an
+anchor never consults the store or an enclosing context: it reads its payload, allocates a fresh pointer
+holding it, and stores nothing. -/
+theorem unanchored_strong_is_fresh (k : Kind) (tid : Nat) (inner : Ty) (o : Out) (hna : ∀ id, o ≠ .alias id)
+    (ha : o.rootAnchor = 0) (s : DeSt) (v : RVal) (e : Out) (s' : DeSt)
+    (h : de (.strong k tid inner) o s = .ok (v, e, s')) :
+    ∃ v0 s2, de inner o (pushCtx s k 0) = .ok (v0, e, s2) ∧ v = .strong k s2.nextPtr ∧
+      s'.store = s2.store ∧ s'.cell s2.nextPtr = some v0 ∧ s'.stack = s2.stack.tail := by
+  unfold de at h
+  rw [strong_case_split _ _ _ _ _ _ hna] at h
+  simp only [ha, if_true] at h
+  split at h
+  · cases h
+  · rename_i v0 e0 s2 hin
+    simp only [alloc, Except.ok.injEq, Prod.mk.injEq] at h
+    obtain ⟨rfl, rfl, rfl⟩ := h
+    exact ⟨v0, s2, hin, rfl, rfl, by simp [DeSt.cell, popCtx], rfl⟩
+
+/-- (T, regression of the defect repaired by afd0262; before it `b` was the allocation of `a` and the
+value 2 was dropped) **nested_unanchored_wrappers_are_independent**: in `o: &a1 {a: {v: 1}, b: {v: 2}}`
+the unanchored inner wrappers are two fresh allocations holding 1 and 2. -/
+theorem nested_unanchored_wrappers_are_independent :
     deCode (deserialize nestedTy nestedDoc) =
-      some ([3, 1, 4, 0, 2],
-        [(2, some [3, 2, 4, 0, 1, 4, 0, 1]), (1, some [3, 1, 0, 1])]) := by decide +kernel
+      some ([3, 1, 4, 0, 3],
+        [(3, some [3, 2, 4, 0, 1, 4, 0, 2]), (2, some [3, 1, 0, 2]), (1, some [3, 1, 0, 1])]) := by decide +kernel
 
 /-- with the inner nodes anchored the two fields are distinct allocations -/
 example :
@@ -486,7 +536,8 @@ example : wellScoped (.node 0 true [.node 1 true [.leaf 0 (.int 5), .alias 1], .
 #print axioms anchor_name_index_in_range
 #print axioms ser_never_deadlocks
 #print axioms ser_defines_once
-#print axioms anchor_lost_on_block_scalar
+#print axioms no_anchor_left_pending
+#print axioms block_scalar_payload_written_in_full
 #print axioms ser_defines_once_counterexample
 #print axioms anchor_on_null_variant_and_nested_wrapper
 #print axioms nested_wrapper_alias_is_refused
@@ -496,12 +547,14 @@ example : wellScoped (.node 0 true [.node 1 true [.leaf 0 (.int 5), .alias 1], .
 #print axioms weak_upgrades_to_stored_owner
 #print axioms dangling_weak_reads_back
 #print axioms unanchored_weak_is_dangling_or_error
-#print axioms block_scalar_anchor_corrupts_roundtrip
+#print axioms block_scalar_roundtrip_loses_sharing
+#print axioms block_payload_inside_anchored_wrapper
 #print axioms dangling_weak_roundtrip
 #print axioms shared_none_roundtrip
 #print axioms weak_needs_defined_owner
 #print axioms weak_before_strong_fails
-#print axioms nested_unanchored_wrapper_takes_sibling
+#print axioms unanchored_strong_is_fresh
+#print axioms nested_unanchored_wrappers_are_independent
 #print axioms recursive_placeholder_filled
 #print axioms plain_fields_independent_copies
 #print axioms sharing_roundtrip_counterexample
